@@ -56,6 +56,8 @@ struct SinkSt<T> {
     stalled_ready: bool, // answers Pending to poll_ready only (no buffer space, but what was written is flushed at once)
     broken: bool,        // answers Err from now on
     reject_next: bool,   // the next start_send answers Err (item-level rejection), the sink stays usable
+    fail_close: bool,    // poll_close answers Err (the peer is gone by the time the stream is closed); everything else works
+    close_failed: bool,
     ever_failed: bool,
     ready: bool,
     start_without_ready: bool,
@@ -124,6 +126,10 @@ impl<T> Sink<T> for MockSink<T> {
             s.waker = Some(cx.waker().clone());
             return Poll::Pending;
         }
+        if s.fail_close {
+            s.close_failed = true;
+            return Poll::Ready(Err(MockErr));
+        }
         s.flushed = s.got.len();
         s.closed = true;
         Poll::Ready(Ok(()))
@@ -137,7 +143,7 @@ impl<T> Clone for SinkH<T> {
 }
 impl<T: Send + 'static> SinkH<T> {
     fn new() -> (Self, Pin<Box<dyn Sink<T, Error = MockErr> + Send>>) {
-        let st = Arc::new(Mutex::new(SinkSt { got: vec![], flushed: 0, closed: false, stalled: false, stalled_flush: false, stalled_ready: false, broken: false, reject_next: false, ever_failed: false, ready: false, start_without_ready: false, waker: None }));
+        let st = Arc::new(Mutex::new(SinkSt { got: vec![], flushed: 0, closed: false, stalled: false, stalled_flush: false, stalled_ready: false, broken: false, reject_next: false, fail_close: false, close_failed: false, ever_failed: false, ready: false, start_without_ready: false, waker: None }));
         (SinkH(st.clone()), Box::pin(MockSink(st)))
     }
     fn stall(&self) {
@@ -151,6 +157,9 @@ impl<T: Send + 'static> SinkH<T> {
     }
     fn reject_next(&self) {
         self.0.lock().unwrap().reject_next = true;
+    }
+    fn fail_close(&self) {
+        self.0.lock().unwrap().fail_close = true;
     }
     fn recover(&self) {
         let w = {
@@ -656,7 +665,8 @@ fn reqrep_scenario(seed: u64, log: &mut Vec<String>) -> Result<(), (String, &'st
                 log.push(format!("another replier ({}) tries to register", late.len() + 1));
                 let l = new_replier(&mut tx);
                 // the refused replier's own connection may be slow: not ready at first, or slow to flush/close
-                match r.below(3) {
+                match r.below(4) {
+                    3 => l.sink.fail_close(), // told, but gone by the time it is closed: the next refusal must not be affected
                     0 => {
                         l.sink.stall_ready();
                         ex.run().map_err(spin)?;
@@ -797,7 +807,7 @@ fn reqrep_scenario(seed: u64, log: &mut Vec<String>) -> Result<(), (String, &'st
         if errs != vec![5] {
             return Err((format!("late replier {} was answered with error codes {:?} instead of one REPLIER_ALREADY_BOUND (5)", i + 1, errs), "C10 C11"));
         }
-        if !st.closed {
+        if !st.closed && !st.close_failed {
             return Err((format!("late replier {} was refused but its stream was never closed", i + 1), "C10 C11"));
         }
     }
